@@ -154,7 +154,10 @@ class Super:
 
     def fmt_path(self, path, maxn=16):
         out = []
-        for (ctx, b, k) in path:
+        for node in path:
+            if len(node) != 3:
+                continue  # start sentinel
+            ctx, b, k = node
             fn = self.fn_of_ctx[ctx]
             ln = fn.line(b, None if k == T else 0) if (k == T or fn.stmts(b)) else None
             if ln is None:
